@@ -90,8 +90,30 @@ def run_pairs(pairs, protocol, seed=0, tid=1):
             an = len(c)
             ag1 = c.get(k1, default='<none>')
             ag2 = c.get(k2, default='<none>')
+            # the other key-addressed operations through the second key while only the first is stored
+            def _try(f):
+                try:
+                    r = f()
+                    return 1 if r is True else 0 if r is False else r
+                except KeyError:
+                    return 'KeyError'
+                except Exception as exc:
+                    return 'raised ' + type(exc).__name__
+            c.clear()
+            c.set(k1, 'v1', expire=None)
+            t2 = _try(lambda: c.touch(k2, expire=100))
+            x1 = c.get(k1, default='<none>', expire_time=True)
+            x1 = 0 if not isinstance(x1, tuple) else (1 if x1[1] is None else 2)      # 1: still without expiry, 2: got one
+            d2 = _try(lambda: c.delete(k2))
+            left3 = len(c)
+            g1c = c.get(k1, default='<none>')
+            c.clear()
+            c.set(k1, 5)
+            i2 = _try(lambda: c.incr(k2, 1, default=None))
+            gi1 = c.get(k1, default='<none>')
             ev.append({'ev': 'pair', 'k1': D[i], 'k2': D[j], 'n': n, 'g1': g1, 'g2': g2, 'first_ok': first_ok,
                        'in2': in2, 'a2': a2, 'an': an, 'ag1': ag1, 'ag2': ag2,
+                       't2': str(t2), 'x1': x1, 'd2': str(d2), 'left3': left3, 'g1c': str(g1c), 'i2': str(i2), 'gi1': str(gi1),
                        'types_ok': types_ok, 'rev_ok': rev_ok, 'p2': p2, 'left': left, 'g1b': g1b,
                        'r1': repr(k1)[:40], 'r2': repr(k2)[:40]})
         c.close()
